@@ -13,6 +13,7 @@
 #include "uthash.h"
 struct bay;
 struct loom;
+struct pcf;
 struct pcf_type;
 struct recorder;
 struct thread;
@@ -73,6 +74,7 @@ USE_RET int cpu_get_index(struct cpu *cpu);
         void cpu_set_name(struct cpu *cpu, const char *name);
 USE_RET int cpu_init_end(struct cpu *cpu);
 USE_RET int cpu_connect(struct cpu *cpu, struct bay *bay, struct recorder *rec);
+USE_RET int cpu_create_pcf_types(struct pcf *pcf);
 
 USE_RET int cpu_update(struct cpu *cpu);
 USE_RET int cpu_add_thread(struct cpu *cpu, struct thread *thread);
